@@ -268,7 +268,9 @@ class VectorAttributeSet(AttributeSet):
             fixed = pa.FixedSizeListArray.from_arrays(col.values, self.vector_size)
             mat = pa.nulls(len(col), type=fixed.type)
             valid = col.is_valid()
-            assert pc.all(pc.equal(col.value_lengths().filter(valid), self.vector_size)).as_py()
+            assert pc.all(
+                pc.equal(col.value_lengths().filter(valid), self.vector_size), min_count=0
+            ).as_py()
             col = _replace_vectors(mat, valid, fixed)
 
         return col
@@ -350,7 +352,7 @@ def _replace_vectors(
 ):
     size = arr.type.list_size
     assert values.type.list_size == size
-    assert pc.all(values.is_valid()).as_py()
+    assert pc.all(values.is_valid(), min_count=0).as_py()
     in_valid = arr.is_valid()
     out_valid = pc.or_(in_valid, mask)
 
